@@ -58,7 +58,7 @@ TreeProg(t, mode) ==
 
 \* ---- probes and compositions -----------------------------------------------------
 ProbeProg(pr) == [tag |-> "PROG", family |-> "probe", kind |-> pr.kind, variant |-> pr.variant,
-                  kinds |-> {pr.kind} \cup BaseKinds, items |-> pr.items, expect |-> pr.expect]
+                  kinds |-> {pr.kind} \cup pr.uses \cup BaseKinds, items |-> pr.items, expect |-> pr.expect]
 Rnd(s) == (s * 1103 + 12345) % 65536
 RECURSIVE RndSeq(_, _)
 RndSeq(s, n) == IF n = 0 THEN <<>> ELSE <<Rnd(s)>> \o RndSeq(Rnd(s), n - 1)
@@ -69,7 +69,7 @@ ComposeProg(j) ==
         ps == <<PC1[ix[1]], PC2[ix[2]], PC3[ix[3]]>>
     IN [tag |-> "PROG", family |-> "compose", n |-> j,
         parts |-> [m \in 1..ComposeSize |-> <<ps[m].kind, ps[m].variant>>],
-        kinds |-> {ps[m].kind : m \in 1..ComposeSize} \cup BaseKinds,
+        kinds |-> {ps[m].kind : m \in 1..ComposeSize} \cup UNION {ps[m].uses : m \in 1..ComposeSize} \cup BaseKinds,
         items |-> Flat([m \in 1..ComposeSize |-> ps[m].items]),
         expect |-> Flat([m \in 1..ComposeSize |-> ps[m].expect])]
 
